@@ -46,28 +46,48 @@ func ntof(v *number) float64 {
 	return float64(v.ival)
 }
 
+// Comparisons are exact on integers (two integers are never compared through float64, which
+// cannot tell 2^53 from 2^53+1); when one operand is a float the integer one is promoted.
 func gt(l, r *number) *number {
-	return bton(ntof(l) > ntof(r))
+	if l.isFloat || r.isFloat {
+		return bton(ntof(l) > ntof(r))
+	}
+	return bton(l.ival > r.ival)
 }
 
 func gte(l, r *number) *number {
-	return bton(ntof(l) >= ntof(r))
+	if l.isFloat || r.isFloat {
+		return bton(ntof(l) >= ntof(r))
+	}
+	return bton(l.ival >= r.ival)
 }
 
 func lt(l, r *number) *number {
-	return bton(ntof(l) < ntof(r))
+	if l.isFloat || r.isFloat {
+		return bton(ntof(l) < ntof(r))
+	}
+	return bton(l.ival < r.ival)
 }
 
 func lte(l, r *number) *number {
-	return bton(ntof(l) <= ntof(r))
+	if l.isFloat || r.isFloat {
+		return bton(ntof(l) <= ntof(r))
+	}
+	return bton(l.ival <= r.ival)
 }
 
 func eq(l, r *number) *number {
-	return bton(ntof(l) == ntof(r))
+	if l.isFloat || r.isFloat {
+		return bton(ntof(l) == ntof(r))
+	}
+	return bton(l.ival == r.ival)
 }
 
 func neq(l, r *number) *number {
-	return bton(ntof(l) != ntof(r))
+	if l.isFloat || r.isFloat {
+		return bton(ntof(l) != ntof(r))
+	}
+	return bton(l.ival != r.ival)
 }
 
 // Arithmetic works on the representation the operands actually carry: integer arithmetic when
